@@ -62,31 +62,32 @@ type Obligation struct {
 }
 
 type FnCtx struct {
-	eng       *Engine
-	fn        *ssa.Function
-	fc        *FuncContract
-	ss        *Sorts
-	body      []string
-	n         int
-	obls      []*Obligation
-	heapSort  map[string]string // key -> SMT sort of the array / cell
-	gens      []genInfo
-	genSyms   map[string]bool
-	kindCnt   map[string]int
-	abstr     []string          // abstractions applied (unsupported constructs replaced by unconstrained values)
-	errs      []string          // hard errors (contract could not be applied)
-	callees   map[string]string // callee -> how handled
-	entry     *State
-	params    map[string]Term
-	paramTy   map[string]types.Type
-	lets      map[string]Term
-	inlDepth  int
-	returns   []retInfo
-	ghostOld  map[string]Term
-	specDecl  map[string]bool
-	usedSpecs []string
-	inlineN   int
-	skipAxiom string
+	eng        *Engine
+	fn         *ssa.Function
+	fc         *FuncContract
+	ss         *Sorts
+	body       []string
+	n          int
+	obls       []*Obligation
+	heapSort   map[string]string // key -> SMT sort of the array / cell
+	gens       []genInfo
+	genSyms    map[string]bool
+	kindCnt    map[string]int
+	abstr      []string          // abstractions applied (unsupported constructs replaced by unconstrained values)
+	errs       []string          // hard errors (contract could not be applied)
+	callees    map[string]string // callee -> how handled
+	entry      *State
+	params     map[string]Term
+	paramTy    map[string]types.Type
+	lets       map[string]Term
+	inlDepth   int
+	returns    []retInfo
+	ghostOld   map[string]Term
+	specDecl   map[string]bool
+	usedSpecs  []string
+	inlineN    int
+	skipAxiom  string
+	atCallSeen map[string]int
 }
 
 type retInfo struct {
